@@ -163,7 +163,8 @@ func vh_C19_served() {
 	vErrKinds = 2
 	vTape = nil
 	vEnvReset()
-	svr := vNewServer(false, "")
+	ro := vNondetBool() // read-only or not (added after seeded change C19-f)
+	svr := vNewServer(ro, "")
 	id := vNondetU32()
 	var m interface{ MarshalBinary() ([]byte, error) }
 	k := vChoice(4)
@@ -191,7 +192,10 @@ func vh_C19_served() {
 	vAssert(werr == nil, "the session goes on")
 	code, isStatus := vStatusCode(vRespBytes(r))
 	if k < 3 {
-		vAssert(!(isStatus && code == sshFxOPUnsupported), "advertised extension is served")
+		vAssert(!(isStatus && code == sshFxOPUnsupported), "advertised extension is served (or refused for being a modification), never 'unsupported'")
+		if k == 2 || !ro {
+			vAssert(!(isStatus && code == sshFxPermissionDenied) || len(vTape) > 0, "a served extension is not refused")
+		}
 	} else {
 		vAssert(isStatus && code == sshFxOPUnsupported, "any other extended request: operation unsupported")
 	}
